@@ -152,7 +152,7 @@ def shared_jobs(tier, s0, names=None):
         for f, v in registry.param_deviations(n):
             jobs.append((_scn(n, seed=s0, over={f: v}, c10_bounds_only=True), {'d': 0}))
     for n in names:
-        for f, v in registry.param_boundary_values(n):
+        for f, v in registry.param_boundary_values(n) + registry.param_int_boundaries(n):
             jobs.append((_scn(n, seed=s0, over={f: v}, c10_bounds_only=True, timeout=60), {'d': 0}))
     if tier == 'thorough':
         for n in names:
